@@ -89,7 +89,7 @@ impl Check for C01 {
             .into()
     }
     fn budget(t: Tier) -> usize {
-        t.pick(4000, 100_000)
+        t.pick(20_000, 400_000)
     }
     fn gen(s: &mut Src, _t: Tier) -> Case {
         Case { program: prog::valid_program(s, &GenOpts::default()) }
